@@ -345,6 +345,13 @@ def run(ctx):
                         ok_pair = True
             if not ok_pair:
                 bad = bad or "remain-margin is not charged with the unrealized pnl of the figures whose notional is the denominator"
+            # ... and computed on the STORED record (a copy already netted of funding would be charged twice)
+            pa = [a_ for a_, i_ in zip(rms[-1].args, range(rms[-1].target.arg_count)) if "Position" in rms[-1].target.locals[i_ + 1]["ty"]]
+            if pa:
+                for fld in ("margin", "last_updated_premium_fraction", "size"):
+                    fi = ix.inline(sym.field(pa[0], fld))
+                    if not (tag(fi) == "field" and payload(fi)[0] == fld and load_key(ix, kids(fi)[0]) is not None):
+                        bad = bad or "the ratio's settlement reads %s = %s, not the stored record's" % (fld, sym.show(fi, 4)[:120])
         if live == 0:
             continue
         n7 += 1
